@@ -42,6 +42,12 @@ FALSY = {
     "additionalProperties": [False], "dependencies": [{}], "description": [""],
 }
 
+ANCHORS = [
+    "statham.schema.elements.meta:ObjectMeta.__new__",
+    "statham.schema.property:_Property.clone",
+    "statham.schema.elements.meta:ObjectMeta.validators",
+]
+
 
 def plan(tier):
     if tier == "quick":
